@@ -28,6 +28,8 @@ CONSTANTS MaxFun,            \* evaluation budget
           NdirsInit,         \* growing.ndirs_initial (0 = npt-1, i.e. a full initial set); with fewer directions the set GROWS by one point per iteration
           WithNoise,         \* noise.quit_on_noise_level: "all values within noise level" may end the run / trigger a restart at the top of an iteration
           RegSteps,          \* regression.num_extra_steps: geometry steps on the furthest points after a successful trust-region step
+          RhoDropAny,        \* FALSE: reduce_rho drops one level at a time; TRUE: any number of levels (the real factor depends on rho/rhoend - used when real
+                             \* runs, whose number of reductions per run varies, are checked against this specification: DfolsCtl.tla)
           WithAuto, WithFalseSuccess,   \* include the auto-detected-restart / false-success exits (switched off for the driven replay, which cannot script them)
           DefSoftSwap,       \* F-03 soft_restart saves (nx, nsamples) for (nsamples, eval_num)
           DefTrialLost,      \* F-04 trial point not saved on the trust-region-increase exit
@@ -160,7 +162,8 @@ NoiseExit ==
   /\ NoEval /\ UNCHANGED <<mdl, ret, restarts, phaseReq, reg>> /\ UNCHANGED Radii /\ UNCHANGED Hard /\ UNCHANGED Soft
 
 \* reduce_rho (controller.py:719-733) on levels: rho drops one level, or to the controller's rhoend when close
-ReduceRho == rho' = IF rho - rhoendC <= 1 THEN rhoendC ELSE rho - 1
+ReduceRho == IF RhoDropAny THEN rho' \in {r \in rhoendC..(rho - 1) : TRUE} /\ rho > rhoendC
+             ELSE rho' = IF rho - rhoendC <= 1 THEN rhoendC ELSE rho - 1
 
 \* Safety step (solver.py:443-532)
 Safety ==
